@@ -30,6 +30,9 @@ type HTTPCase struct {
 	// ("complete": sends a complete message for the id; "drop": closes the TCP connection without a close frame)
 	ClientEnds string `json:"clientEnds,omitempty"`
 	AfterNext  int    `json:"afterNext,omitempty"`
+	// multipart only: MultipartMixed.DeliveryTimeout (how long incremental payloads are batched), 0 = default
+	DeliveryTimeoutMs int  `json:"deliveryTimeoutMs,omitempty"`
+	FullBody          bool `json:"fullBody,omitempty"` // report the body whatever its size
 }
 
 type HTTPResult struct {
@@ -53,7 +56,7 @@ func RunHTTP(es graphql.ExecutableSchema, c HTTPCase) HTTPResult {
 	st := &State{Plan: c.Plan, Schema: es.Schema(), CancelAt: int64(c.CancelAt)}
 	srv := handler.New(es)
 	srv.AddTransport(transport.SSE{})
-	srv.AddTransport(transport.MultipartMixed{})
+	srv.AddTransport(transport.MultipartMixed{DeliveryTimeout: time.Duration(c.DeliveryTimeoutMs) * time.Millisecond})
 	srv.AddTransport(transport.GET{})
 	srv.AddTransport(transport.POST{})
 	srv.SetRecoverFunc(func(ctx context.Context, err any) error {
@@ -126,7 +129,7 @@ func RunHTTP(es graphql.ExecutableSchema, c HTTPCase) HTTPResult {
 		}
 		b, err := io.ReadAll(rd)
 		res.BodyLen = len(b)
-		if len(b) < 4000 {
+		if len(b) < 4000 || c.FullBody {
 			res.Body = string(b)
 		}
 		if err != nil {
